@@ -114,7 +114,13 @@ class AstRewriter(ast.NodeTransformer):
         new_bookkeeper = last_tracer.ast_bookkeeper_by_fname[self._path] = (
             AstBookkeeper.create(self._path, module_id)
         )
-        if old_bookkeeper is not None and self.gc_bookkeeping:
+        if (
+            old_bookkeeper is not None
+            and self.gc_bookkeeping
+            and not isinstance(node, (ast.FunctionDef, ast.AsyncFunctionDef))
+        ):
+            # a single function of the file is being rewritten (the `instrumented` decorator): the
+            # entries registered for the file so far belong to other functions that can still run
             last_tracer.remove_bookkeeping(old_bookkeeper, module_id)
         BookkeepingVisitor(
             new_bookkeeper.ast_node_by_id,
